@@ -35,6 +35,12 @@ pub proof fn axiom_one_word_per_address(a: Object, b: Object)
     ensures a == b
 {}
 
+// PROVED-BY: O15.5 c15_tag_total (is_heap_allocated == "tag bits >= Float", tag == the tag bits)
+#[verifier::external_body]
+pub proof fn axiom_heap_tags(o: Object)
+    ensures is_heap(o) == (spec_tag(o) == Type::Float || spec_tag(o) == Type::String || spec_tag(o) == Type::Array)
+{}
+
 impl Object {
     // PROVED-BY: O15.5 c15_tag_total (the tag is a function of the word)
     #[verifier::external_body]
@@ -247,7 +253,246 @@ pub proof fn lemma_reachable_is_marked(objs: Seq<Object>, roots: Seq<Seq<Object>
     }
 }
 
+// ---- sweep: the bookkeeping of swap_remove over the unset bits, highest first --------------------------------
+/// z lists exactly the indices of the unset bits of m, highest first
+pub open spec fn zeros_of(z: Seq<usize>, m: Seq<bool>) -> bool {
+    &&& forall|s: int, t: int| 0 <= s < t < z.len() ==> z[s] > z[t]
+    &&& forall|t: int| 0 <= t < z.len() ==> z[t] < m.len() && !m[z[t] as int]
+    &&& forall|i: int| 0 <= i < m.len() && !m[i] ==> exists|t: int| 0 <= t < z.len() && z[t] == i
+}
+/// indices below this bound have not been touched yet after t removals
+/// x is one of the marked objects of the old list
+pub open spec fn kept_marked(old_o: Seq<Object>, m: Seq<bool>, x: Object) -> bool {
+    exists|k: int| 0 <= k < old_o.len() && #[trigger] m[k] && old_o[k] == x
+}
+pub open spec fn bound(z: Seq<usize>, t: int, n0: int) -> int { if t == 0 { n0 } else { z[t - 1] as int } }
+/// cur is old rearranged by perm: positions below b untouched, positions from b on hold marked objects, and every
+/// marked object from b on is still present
+pub open spec fn sweep_inv(old_o: Seq<Object>, cur: Seq<Object>, m: Seq<bool>, perm: Seq<int>, b: int) -> bool {
+    &&& perm.len() == cur.len()
+    &&& 0 <= b <= perm.len()
+    &&& forall|i: int| 0 <= i < perm.len() ==> 0 <= #[trigger] perm[i] < old_o.len() && cur[i] == old_o[perm[i]]
+    &&& forall|i: int, j: int| 0 <= i < perm.len() && 0 <= j < perm.len() && i != j ==> #[trigger] perm[i] != #[trigger] perm[j]
+    &&& forall|i: int| 0 <= i < b ==> #[trigger] perm[i] == i
+    &&& forall|i: int| b <= i < perm.len() ==> m[#[trigger] perm[i]]
+    &&& forall|k: int| b <= k < old_o.len() && #[trigger] m[k] ==> exists|i: int| 0 <= i < perm.len() && perm[i] == k
+}
+pub proof fn lemma_bound_step(z: Seq<usize>, t: int, m: Seq<bool>)
+    requires zeros_of(z, m), 0 <= t < z.len()
+    ensures
+        z[t] < bound(z, t, m.len() as int),
+        forall|i: int| z[t] < i < bound(z, t, m.len() as int) ==> #[trigger] m[i],
+{
+    assert forall|i: int| z[t] < i < bound(z, t, m.len() as int) implies #[trigger] m[i] by {
+        if !m[i] {
+            let s = choose|s: int| 0 <= s < z.len() && z[s] == i;
+            if s < t { if t > 0 && s < t - 1 { assert(z[s] > z[t - 1]); } } else if s > t { assert(z[t] > z[s]); }
+        }
+    }
+}
+pub proof fn lemma_sweep_step(old_o: Seq<Object>, cur: Seq<Object>, cur2: Seq<Object>, m: Seq<bool>, perm: Seq<int>, z: Seq<usize>, t: int, n0: int)
+    requires
+        zeros_of(z, m), 0 <= t < z.len(), m.len() == n0, old_o.len() == n0,
+        sweep_inv(old_o, cur, m, perm, bound(z, t, n0)),
+        z[t] < bound(z, t, n0),
+        forall|i: int| z[t] < i < bound(z, t, n0) ==> #[trigger] m[i],
+        cur2 =~= cur.update(z[t] as int, cur.last()).drop_last(),
+    ensures
+        sweep_inv(old_o, cur2, m, perm.update(z[t] as int, perm.last()).drop_last(), bound(z, t + 1, n0)),
+{
+    let zt = z[t] as int;
+    let b = bound(z, t, n0);
+    let last = perm.len() - 1;
+    let p2 = perm.update(zt, perm.last()).drop_last();
+    assert(bound(z, t + 1, n0) == zt);
+    assert forall|i: int| zt <= i < p2.len() implies m[#[trigger] p2[i]] by {
+        if i == zt {
+            if last >= b { assert(m[perm[last]]); } else { assert(perm[last] == last); assert(m[last]); }
+        } else if i < b { assert(perm[i] == i); assert(m[i]); } else { assert(m[perm[i]]); }
+    }
+    assert forall|k: int| zt <= k < old_o.len() && #[trigger] m[k] implies exists|i: int| 0 <= i < p2.len() && p2[i] == k by {
+        if k >= b {
+            let i = choose|i: int| 0 <= i < perm.len() && perm[i] == k;
+            if i == last { assert(p2[zt] == k); } else { assert(perm[zt] == zt); assert(p2[i] == k); }
+        } else {
+            assert(perm[k] == k);
+            if k == last { assert(p2[zt] == k); } else { assert(p2[k] == k); }
+        }
+    }
+    assert forall|i: int, j: int| 0 <= i < p2.len() && 0 <= j < p2.len() && i != j implies #[trigger] p2[i] != #[trigger] p2[j] by {
+        let i0 = if i == zt { last } else { i };
+        let j0 = if j == zt { last } else { j };
+        assert(perm[i0] != perm[j0]);
+    }
+    assert forall|i: int| 0 <= i < p2.len() implies 0 <= #[trigger] p2[i] < old_o.len() && cur2[i] == old_o[p2[i]] by {
+        let i0 = if i == zt { last } else { i };
+        assert(0 <= perm[i0] < old_o.len() && cur[i0] == old_o[perm[i0]]);
+    }
+}
+pub proof fn lemma_sweep_done(old_o: Seq<Object>, cur: Seq<Object>, m: Seq<bool>, perm: Seq<int>, z: Seq<usize>, n0: int)
+    requires
+        zeros_of(z, m), m.len() == n0, old_o.len() == n0, distinct(old_o), all_heap(old_o),
+        sweep_inv(old_o, cur, m, perm, bound(z, z.len() as int, n0)),
+    ensures
+        distinct(cur), all_heap(cur),
+        forall|k: int| 0 <= k < n0 && m[k] ==> cur.contains(#[trigger] old_o[k]),
+        forall|j: int| 0 <= j < cur.len() ==> kept_marked(old_o, m, #[trigger] cur[j]),
+{
+    let b = bound(z, z.len() as int, n0);
+    // nothing below the lowest unset bit is unset
+    assert forall|i: int| 0 <= i < b implies #[trigger] m[i] by {
+        if !m[i] {
+            let s = choose|s: int| 0 <= s < z.len() && z[s] == i;
+            if s < z.len() - 1 { assert(z[s] > z[z.len() - 1]); }
+        }
+    }
+    assert forall|k: int| 0 <= k < n0 && m[k] implies cur.contains(#[trigger] old_o[k]) by {
+        if k < b { assert(perm[k] == k); assert(cur[k] == old_o[k]); }
+        else { let i = choose|i: int| 0 <= i < perm.len() && perm[i] == k; assert(cur[i] == old_o[k]); }
+    }
+    assert forall|j: int| 0 <= j < cur.len() implies kept_marked(old_o, m, #[trigger] cur[j]) by {
+        let k = perm[j];
+        if j < b { assert(perm[j] == j); assert(m[j]); } else { assert(m[perm[j]]); }
+        assert(old_o[k] == cur[j]);
+    }
+    assert forall|i: int, j: int| 0 <= i < cur.len() && 0 <= j < cur.len() && i != j implies addr(#[trigger] cur[i]) != addr(#[trigger] cur[j]) by {
+        assert(perm[i] != perm[j]);
+        assert(cur[i] == old_o[perm[i]] && cur[j] == old_o[perm[j]]);
+    }
+    assert forall|i: int| 0 <= i < cur.len() implies is_heap(#[trigger] cur[i]) by { assert(cur[i] == old_o[perm[i]]); }
+}
+
+// ---- untrace ----------------------------------------------------------------------------------------------------
+/// every element of a is an element of b
+pub open spec fn sub(a: Seq<Object>, b: Seq<Object>) -> bool { forall|j: int| 0 <= j < a.len() ==> b.contains(#[trigger] a[j]) }
+pub proof fn lemma_sub_step(a: Seq<Object>, b: Seq<Object>, c: Seq<Object>, o: Object)
+    requires sub(a, b), sub(b, c), !managed(b, o)
+    ensures sub(a, c), !managed(a, o)
+{
+    assert forall|j: int| 0 <= j < a.len() implies c.contains(#[trigger] a[j]) by {
+        let i = choose|i: int| 0 <= i < b.len() && b[i] == a[j];
+        assert(c.contains(b[i]));
+    }
+    if managed(a, o) {
+        let j = choose|j: int| 0 <= j < a.len() && addr(#[trigger] a[j]) == addr(o);
+        let i = choose|i: int| 0 <= i < b.len() && b[i] == a[j];
+        assert(addr(b[i]) == addr(o));
+    }
+}
+pub proof fn lemma_swap_remove(objs: Seq<Object>, pos: int, o: Object)
+    requires distinct(objs), all_heap(objs), 0 <= pos < objs.len(), addr(objs[pos]) == addr(o)
+    ensures ({
+        let r = objs.update(pos, objs.last()).drop_last();
+        distinct(r) && all_heap(r) && sub(r, objs) && !managed(r, o)
+    })
+{
+    let r = objs.update(pos, objs.last()).drop_last();
+    let last = objs.len() - 1;
+    assert forall|j: int| 0 <= j < r.len() implies objs.contains(#[trigger] r[j]) && is_heap(r[j]) && addr(r[j]) != addr(o) by {
+        let j0 = if j == pos { last } else { j };
+        assert(r[j] == objs[j0]);
+        assert(j0 != pos);
+    }
+    assert forall|i: int, j: int| 0 <= i < r.len() && 0 <= j < r.len() && i != j implies addr(#[trigger] r[i]) != addr(#[trigger] r[j]) by {
+        let i0 = if i == pos { last } else { i };
+        let j0 = if j == pos { last } else { j };
+        assert(r[i] == objs[i0] && r[j] == objs[j0]);
+    }
+}
+
+// ---- run: the mark phase over all roots, then the sweep -------------------------------------------------------
+pub proof fn lemma_marks_step(objs: Seq<Object>, roots: Seq<&[Object]>, mb: Seq<bool>, m2: Seq<bool>, kr: int, ko: int)
+    requires
+        mb.len() == objs.len(), grows(mb, m2), 0 <= kr < roots.len(), 0 <= ko < roots[kr]@.len(),
+        forall|k: int| 0 <= k < objs.len() && #[trigger] mb[k] ==> closed(objs, mb, k),
+        forall|k: int| 0 <= k < objs.len() && #[trigger] m2[k] && !mb[k] ==> closed(objs, m2, k),
+        forall|i: int, j: int| 0 <= i < kr && 0 <= j < roots[i]@.len() ==> covered(objs, mb, #[trigger] roots[i]@[j]),
+        forall|j: int| 0 <= j < ko ==> covered(objs, mb, #[trigger] roots[kr]@[j]),
+        covered(objs, m2, roots[kr]@[ko]),
+    ensures
+        forall|k: int| 0 <= k < objs.len() && #[trigger] m2[k] ==> closed(objs, m2, k),
+        forall|i: int, j: int| 0 <= i < kr && 0 <= j < roots[i]@.len() ==> covered(objs, m2, #[trigger] roots[i]@[j]),
+        forall|j: int| 0 <= j < ko + 1 ==> covered(objs, m2, #[trigger] roots[kr]@[j]),
+{
+    assert forall|k: int| 0 <= k < objs.len() && #[trigger] m2[k] implies closed(objs, m2, k) by {
+        if mb[k] { lemma_closed_mono(objs, mb, m2, k); }
+    }
+    assert forall|i: int, j: int| 0 <= i < kr && 0 <= j < roots[i]@.len() implies covered(objs, m2, #[trigger] roots[i]@[j]) by {
+        lemma_covered_mono(objs, mb, m2, roots[i]@[j]);
+    }
+    assert forall|j: int| 0 <= j < ko + 1 implies covered(objs, m2, #[trigger] roots[kr]@[j]) by {
+        if j < ko { lemma_covered_mono(objs, mb, m2, roots[kr]@[j]); }
+    }
+}
+/// after a complete mark phase an unmarked object is not reachable: the caller's permission covers it
+pub proof fn lemma_unmarked_unreachable(objs: Seq<Object>, roots: &[&[Object]], m: Seq<bool>)
+    requires
+        m.len() == objs.len(),
+        forall|k: int| 0 <= k < objs.len() && #[trigger] m[k] ==> closed(objs, m, k),
+        forall|i: int, j: int| 0 <= i < roots@.len() && 0 <= j < roots@[i]@.len() ==> covered(objs, m, #[trigger] roots@[i]@[j]),
+        forall|k: int| 0 <= k < objs.len() && !reachable(objs, roots_view(roots), k) ==> may_free(#[trigger] objs[k]),
+    ensures
+        mark_complete(objs, roots_view(roots), m),
+        forall|k: int| 0 <= k < objs.len() && !m[k] ==> may_free(#[trigger] objs[k]),
+{
+    let rv = roots_view(roots);
+    assert forall|i: int, j: int| 0 <= i < rv.len() && 0 <= j < rv[i].len() implies covered(objs, m, #[trigger] rv[i][j]) by {
+        assert(rv[i] == roots@[i]@);
+        assert(covered(objs, m, roots@[i]@[j]));
+    }
+    assert forall|k: int| 0 <= k < objs.len() && !m[k] implies may_free(#[trigger] objs[k]) by {
+        if reachable(objs, rv, k) {
+            let n = choose|n: nat| reach(objs, rv, k, n);
+            lemma_reachable_is_marked(objs, rv, m, k, n);
+        }
+    }
+}
+pub proof fn lemma_run_post(objs: Seq<Object>, roots: &[&[Object]], m: Seq<bool>, fin: Seq<Object>)
+    requires
+        mark_complete(objs, roots_view(roots), m),
+        forall|k: int| 0 <= k < objs.len() && m[k] ==> fin.contains(#[trigger] objs[k]),
+        forall|j: int| 0 <= j < fin.len() ==> kept_marked(objs, m, #[trigger] fin[j]),
+    ensures
+        forall|k: int| 0 <= k < objs.len() && reachable(objs, roots_view(roots), k) ==> fin.contains(#[trigger] objs[k]),
+        forall|j: int| 0 <= j < fin.len() ==> objs.contains(#[trigger] fin[j]),
+{
+    let rv = roots_view(roots);
+    assert forall|k: int| 0 <= k < objs.len() && reachable(objs, rv, k) implies fin.contains(#[trigger] objs[k]) by {
+        let n = choose|n: nat| reach(objs, rv, k, n);
+        lemma_reachable_is_marked(objs, rv, m, k, n);
+    }
+    assert forall|j: int| 0 <= j < fin.len() implies objs.contains(#[trigger] fin[j]) by {
+        let k = choose|k: int| 0 <= k < objs.len() && #[trigger] m[k] && objs[k] == fin[j];
+        assert(objs[k] == fin[j]);
+    }
+}
+
 impl GC {
+    /// O03.new  a new collector manages nothing
+    pub fn new() -> (g: GC)
+        ensures gc_wf(g), g.objects@.len() == 0,
+    {
+//@BODY file=gc.rs fn=new impl=GC sig="pub fn new() -> GC" rules="R4"
+    }
+
+    /// O03.untrace  untrace (real text, recursive): hands objects over to the caller - it only REMOVES entries from the
+    /// managed list (never adds, never frees), the object itself is no longer managed, the list stays
+    /// duplicate-free; terminates on cyclic arrays (measure = length of the managed list)
+    pub fn untrace(&mut self, o: Object)
+        requires gc_wf(*old(self)),
+        ensures
+            gc_wf(*final(self)), sub(final(self).objects@, old(self).objects@),
+            final(self).objects@.len() <= old(self).objects@.len(),
+            !managed(final(self).objects@, o),
+        decreases old(self).objects@.len(),
+    {
+//@GHOST after="self.objects.swap_remove(pos);" proof { lemma_swap_remove(old(self).objects@, pos as int, o); axiom_heap_tags(o); }
+//@GHOST before="self.untrace(*val);" let ghost ob = self.objects@;
+//@GHOST after="self.untrace(*val);" proof { lemma_sub_step(self.objects@, ob, old(self).objects@, o); }
+//@LOOP 1 invariant gc_wf(*self), sub(self.objects@, old(self).objects@), self.objects@.len() < old(self).objects@.len(), !managed(self.objects@, o), __v_val@ == elems(o)
+//@BODY file=gc.rs fn=untrace impl=GC sig="pub fn untrace(&mut self, o: Object)" rules="R4;R8w[self.objects.iter().position(|a| std::ptr::eq(a.as_ptr(), o.as_ptr()))=>position_by_ptr(&self.objects, &o)];R13r[val in o.as_vec_unchecked()]"
+    }
+
     /// O03.mark  GC::mark (real text, recursive): marks the object if the collector manages it and - through the
     /// recursion - everything that becomes marked has all its managed elements marked; marks only grow; the
     /// managed list is not touched; terminates on every heap shape (cycles included: measure = unset mark bits)
@@ -266,7 +511,87 @@ impl GC {
 //@GHOST before="self.mark(v);" let ghost mb = self.mark_bitmap@;
 //@GHOST after="self.mark(v);" proof { lemma_count_grows(mb, self.mark_bitmap@); lemma_covered_mono(self.objects@, mb, self.mark_bitmap@, *o); assert(grows(old(self).mark_bitmap@, self.mark_bitmap@)); assert forall|c: int| 0 <= c < __k_v implies covered(self.objects@, self.mark_bitmap@, #[trigger] __v_v@[c]) by { lemma_covered_mono(self.objects@, mb, self.mark_bitmap@, __v_v@[c]); } assert forall|k: int| 0 <= k < self.objects@.len() && #[trigger] self.mark_bitmap@[k] && !old(self).mark_bitmap@.update(index as int, true)[k] implies closed(self.objects@, self.mark_bitmap@, k) by { if mb[k] { lemma_closed_mono(self.objects@, mb, self.mark_bitmap@, k); } } }
 //@LOOP 1 invariant self.objects@ == old(self).objects@, gc_wf(*self), self.mark_bitmap@.len() == self.objects@.len(), index < self.objects@.len(), self.objects@[index as int] == *o, is_heap(*o), spec_tag(*o) == Type::Array, __v_v@ == elems(*o), old(self).mark_bitmap@.len() == self.objects@.len(), !old(self).mark_bitmap@[index as int], grows(old(self).mark_bitmap@.update(index as int, true), self.mark_bitmap@), grows(old(self).mark_bitmap@, self.mark_bitmap@), covered(self.objects@, self.mark_bitmap@, *o), forall|c: int| 0 <= c < __k_v ==> covered(self.objects@, self.mark_bitmap@, #[trigger] __v_v@[c]), forall|k: int| 0 <= k < self.objects@.len() && #[trigger] self.mark_bitmap@[k] && !old(self).mark_bitmap@.update(index as int, true)[k] ==> closed(self.objects@, self.mark_bitmap@, k), count_false(self.mark_bitmap@) < count_false(old(self).mark_bitmap@)
-//@BODY file=gc.rs fn=mark impl=GC sig="fn mark(&mut self, o: &Object)" rules="R4;R8w[self.objects.iter().position(|a| std::ptr::eq(a.as_ptr(), o.as_ptr()))=>position_by_ptr(&self.objects, o)];R8[self.mark_bitmap[index]=>self.mark_bitmap.get_bit(index)];R13r[v in { o.as_vec_unchecked() }]"
+//@BODY file=gc.rs fn=mark impl=GC sig="fn mark(&mut self, o: &Object)" rules="R4;R8w[self.objects.iter().position(|a| std::ptr::eq(a.as_ptr(), o.as_ptr()))=>position_by_ptr(&self.objects, o)];R8o[self.mark_bitmap[index]=>self.mark_bitmap.get_bit(index)];R13r[v in { o.as_vec_unchecked() }]"
+    }
+    /// O03.reset  reset_marks: one unset bit per managed object
+    fn reset_marks(&mut self)
+        ensures
+            final(self).objects@ == old(self).objects@,
+            final(self).mark_bitmap@.len() == final(self).objects@.len(),
+            forall|i: int| 0 <= i < final(self).mark_bitmap@.len() ==> !final(self).mark_bitmap@[i],
+    {
+//@BODY file=gc.rs fn=reset_marks impl=GC sig="fn reset_marks(&mut self)" rules="R4"
+    }
+
+    /// O03.sweep  sweep: releases EXACTLY the unmarked objects (each once, each with the caller's permission) and
+    /// keeps exactly the marked ones; the managed list stays duplicate-free
+    pub fn sweep(&mut self)
+        requires
+            gc_wf(*old(self)), old(self).mark_bitmap@.len() == old(self).objects@.len(),
+            forall|k: int| 0 <= k < old(self).objects@.len() && !old(self).mark_bitmap@[k] ==> may_free(#[trigger] old(self).objects@[k]),
+        ensures
+            //@VACUITY
+            gc_wf(*final(self)), final(self).mark_bitmap@.len() == 0,
+            forall|k: int| 0 <= k < old(self).objects@.len() && old(self).mark_bitmap@[k] ==> final(self).objects@.contains(#[trigger] old(self).objects@[k]),
+            forall|j: int| 0 <= j < final(self).objects@.len() ==> kept_marked(old(self).objects@, old(self).mark_bitmap@, #[trigger] final(self).objects@[j]),
+    {
+//@PRELOOP 1 let ghost mut perm: Seq<int> = Seq::new(self.objects@.len(), |i: int| i); let ghost n0 = self.objects@.len() as int; let ghost m = self.mark_bitmap@;
+//@LOOP 1 invariant self.mark_bitmap@ == m, m == old(self).mark_bitmap@, n0 == old(self).objects@.len(), m.len() == n0, gc_wf(*old(self)), zeros_of(__v@, m), forall|k: int| 0 <= k < n0 && !m[k] ==> may_free(#[trigger] old(self).objects@[k]), sweep_inv(old(self).objects@, self.objects@, m, perm, bound(__v@, __k as int, n0)), self.objects@.len() == n0 - __k
+//@GHOST after="let object = self.objects.swap_remove(unmarked);" proof { let last = perm.len() - 1; let bb = bound(__v@, __k as int, n0); assert(unmarked < bb); assert(perm[unmarked as int] == unmarked); assert(object == old(self).objects@[unmarked as int]); lemma_sweep_step(old(self).objects@, sw0, self.objects@, m, perm, __v@, __k as int, n0); perm = perm.update(unmarked as int, perm[last]).drop_last(); }
+//@GHOST before="let object = self.objects.swap_remove(unmarked);" let ghost sw0 = self.objects@; proof { lemma_bound_step(__v@, __k as int, m); }
+//@GHOST before="self.mark_bitmap.clear();" proof { lemma_sweep_done(old(self).objects@, self.objects@, m, perm, __v@, n0); }
+//@BODY file=gc.rs fn=sweep impl=GC sig="pub fn sweep(&mut self)" rules="R4;R4d;R8[self.mark_bitmap.iter_zeros().rev()=>self.mark_bitmap.zeros_desc()];R13[unmarked in self.mark_bitmap.zeros_desc()]"
+    }
+
+    /// O03.destroy  destroy: everything the collector manages is released (with permission), nothing stays managed
+    pub fn destroy(&mut self)
+        requires gc_wf(*old(self)), forall|k: int| 0 <= k < old(self).objects@.len() ==> may_free(#[trigger] old(self).objects@[k]),
+        ensures final(self).objects@.len() == 0,
+    {
+//@GHOST before="self.sweep();" let ghost o0 = self.objects@; let ghost m0 = self.mark_bitmap@;
+//@GHOST after="self.sweep();" proof { if self.objects@.len() > 0 { assert(kept_marked(o0, m0, self.objects@[0])); } }
+//@BODY file=gc.rs fn=destroy impl=GC sig="pub fn destroy(&mut self)" rules="R4"
+    }
+
+    /// O03.run  C03 itself: a collection releases ONLY managed objects that are NOT reachable from the roots (the
+    /// caller's permission covers nothing else, and `free` demands it), and every managed object that IS reachable
+    /// from a root - directly, or through any chain of managed arrays, however nested, shared or cyclic - is still
+    /// managed afterwards; the collector's own invariant holds again
+    pub fn run(&mut self, roots: &[&[Object]])
+        requires
+            gc_wf(*old(self)),
+            forall|k: int| 0 <= k < old(self).objects@.len() && !reachable(old(self).objects@, roots_view(roots), k) ==> may_free(#[trigger] old(self).objects@[k]),
+        ensures
+            //@VACUITY
+            gc_wf(*final(self)),
+            forall|k: int| 0 <= k < old(self).objects@.len() && reachable(old(self).objects@, roots_view(roots), k) ==> final(self).objects@.contains(#[trigger] old(self).objects@[k]),
+            forall|j: int| 0 <= j < final(self).objects@.len() ==> old(self).objects@.contains(#[trigger] final(self).objects@[j]),
+    {
+//@LOOP 1 invariant self.objects@ == old(self).objects@, gc_wf(*self), self.mark_bitmap@.len() == self.objects@.len(), __v_root@ == roots@, forall|k: int| 0 <= k < self.objects@.len() && #[trigger] self.mark_bitmap@[k] ==> closed(self.objects@, self.mark_bitmap@, k), forall|i: int, j: int| 0 <= i < __k_root && 0 <= j < roots@[i]@.len() ==> covered(self.objects@, self.mark_bitmap@, #[trigger] roots@[i]@[j])
+//@LOOP 2 invariant self.objects@ == old(self).objects@, gc_wf(*self), self.mark_bitmap@.len() == self.objects@.len(), __v_root@ == roots@, __k_root < roots@.len(), __v_obj@ == roots@[__k_root as int]@, forall|k: int| 0 <= k < self.objects@.len() && #[trigger] self.mark_bitmap@[k] ==> closed(self.objects@, self.mark_bitmap@, k), forall|i: int, j: int| 0 <= i < __k_root && 0 <= j < roots@[i]@.len() ==> covered(self.objects@, self.mark_bitmap@, #[trigger] roots@[i]@[j]), forall|j: int| 0 <= j < __k_obj ==> covered(self.objects@, self.mark_bitmap@, #[trigger] __v_obj@[j])
+//@GHOST before="self.mark(obj);" let ghost mb = self.mark_bitmap@;
+//@GHOST after="self.mark(obj);" proof { lemma_marks_step(self.objects@, roots@, mb, self.mark_bitmap@, __k_root as int, __k_obj as int); }
+//@GHOST before="self.sweep();" let ghost m = self.mark_bitmap@; proof { lemma_unmarked_unreachable(self.objects@, roots, m); }
+//@GHOST after="self.sweep();" proof { lemma_run_post(old(self).objects@, roots, m, self.objects@); }
+//@BODY file=gc.rs fn=run impl=GC sig="pub fn run(&mut self, roots: &[&[Object]])" rules="R4;R13r[root in roots.iter()];R13r[obj in root.iter()]"
+    }
+
+    /// O03.trace  maybe_trace registers a heap object once, never twice, and never an immediate
+    pub fn maybe_trace(&mut self, o: Object)
+        requires gc_wf(*old(self)),
+        ensures
+            gc_wf(*final(self)),
+            final(self).objects@ == (if is_heap(o) && !managed(old(self).objects@, o) { old(self).objects@.push(o) } else { old(self).objects@ }),
+    {
+//@BODY file=gc.rs fn=maybe_trace impl=GC sig="pub fn maybe_trace(&mut self, o: Object)" rules="R4;R8wo[self.objects.iter().any(|a| std::ptr::eq(a.as_ptr(), o.as_ptr()))=>any_by_ptr(&self.objects, &o)]"
+    }
+
+    /// O03.trace  trace registers a FRESH heap object (every call site follows an allocation)
+    pub fn trace(&mut self, o: Object)
+        requires gc_wf(*old(self)), is_heap(o), !managed(old(self).objects@, o),
+        ensures gc_wf(*final(self)), final(self).objects@ == old(self).objects@.push(o),
+    {
+//@BODY file=gc.rs fn=trace impl=GC sig="pub fn trace(&mut self, o: Object)" rules="R4"
     }
 }
 
